@@ -40,6 +40,15 @@ func Spec(id, tier string) *core.CheckSpec {
 			{Engine: "poolsim", Label: "fault-free", Seconds: sec(15, 240), Opt: core.Options{Params: p("faults", "0")}},
 			{Engine: "poolsim", Label: "dup-late-reorder", Seconds: sec(15, 240), Opt: core.Options{Params: p("faults", "1")}},
 		}
+	case "C17":
+		cs.WorkerProcs = "4"
+		cs.Batches = []core.Batch{
+			{Engine: "schedsim", Label: "forkchoice", Seconds: sec(12, 200), Opt: core.Options{Params: p("comp", "fc")}},
+			{Engine: "schedsim", Label: "pubkey-cache", Seconds: sec(10, 150), Opt: core.Options{Params: p("comp", "cache")}},
+			{Engine: "schedsim", Label: "attestation-pool", Seconds: sec(8, 150), Opt: core.Options{Params: p("comp", "attpool")}},
+			{Engine: "schedsim", Label: "sync-pool", Seconds: sec(6, 100), Opt: core.Options{Params: p("comp", "syncpool")}},
+			{Engine: "schedsim", Label: "slashing-exit-pools", Seconds: sec(6, 100), Opt: core.Options{Params: p("comp", "misc")}},
+		}
 	default:
 		return nil
 	}
